@@ -185,6 +185,8 @@ TP("shootAlpha", path="HydrodynamicsTemplateModel._shooting", params=[("vw", R),
 TP("maxAlMatching", path="HydrodynamicsTemplateModel.maxAl.matching", params=[("vm", R), ("alN", R)], dom=VDOM)
 TP("deflagTpTm", path="HydrodynamicsTemplateModel.findMatching", params=[("vm", R), ("vp", R)], ret="RxRxRxR",
    first="alp", last="Tm", outputs=["vp", "vm", "Tp", "Tm"], dom=VDOM)
+TP("alMinBracket", path="HydrodynamicsTemplateModel.solveAlpha", params=[("vw", R), ("constraint", "Bool")], first="vm", last="alMin",
+   outputs=["alMin"], dom=VDOM)
 TINIT_ENV = {"self.cb2": ("var", "cb2"), "self.cs2": ("var", "cs2"), "self.wN": ("var", "wN"), "self.mu": ("var", "mu"),
              "self.nu": ("var", "nu"), "self.alN": ("var", "alN")}
 TI = lambda *a, **k: add(Spec(*a, module="Template", file="hydrodynamicsTemplateModel.py", env=TINIT_ENV,  # noqa: E731
